@@ -937,7 +937,13 @@ func c20Transforming(c *Ctx, r *RNG, decoder bool) {
 	}
 	obsVal := "ok"
 	if gotErr != nil {
-		obsVal = "err " + gotErr.Error()
+		var text string
+		if epn := catch(func() { text = gotErr.Error() }); epn != "" {
+			// an error value that cannot even be printed: its wrapper carries no cause
+			viol("the wrapper's Value/Decode returned an error whose Error() panics (a wrapper around a nil cause): the failure it stands for is lost", "an error that says what failed", epn)
+			return
+		}
+		obsVal = "err " + text
 	}
 	if obsVal != modelVal {
 		disagree("Value/Decode of the wrapper: outcome differs from the model (which error is returned, with which prefix)", modelVal, obsVal)
@@ -958,6 +964,8 @@ func c20Transforming(c *Ctx, r *RNG, decoder bool) {
 		res.Count("wrap.value=reverse-error")
 		if gotErr == nil || !strings.HasSuffix(gotErr.Error(), expRevErr.Error()) {
 			viol("reverse translation failed but the wrapper's Value/Decode did not return that error", expRevErr.Error(), obsVal)
+		} else if errors.Is(expRevErr, errC20GateUnmangle) && !errors.Is(gotErr, errC20GateUnmangle) {
+			viol("reverse translation failed: the error the wrapper returned does not lead (errors.Is) to the mangler's error", errC20GateUnmangle.Error(), obsVal)
 		}
 	default:
 		res.Count("wrap.value=ok")
